@@ -34,6 +34,7 @@ From CSS Require Import Gen.Prelude Gen.Compositions Count.CompositionsSpec
   Count.SampleParamsExample Count.SampleParamsExample2.
 From CSS Require Import Count.ParseTreesSampleParams Count.ParseTreesExampleParams.
 (* translator tie of _valid_compositions (separable delta: this line, the section "tie to the source" and its two Print Assumptions) *)
+From CSS Require Count.ObjectsRun Count.ParseTreesRun Count.ParseTreesRunSpec Count.ParseTreesSampleDeciders.
 From CSS Require Gen.ProductRelianceProfile Gen.ProductValidCompositions Gen.ProductMinSizes Gen.ProductMaxSizes Count.GenBridgeValidComps.
 Import ListNotations.
 Open Scope Z_scope.
@@ -626,6 +627,60 @@ Theorem C08_sampler_is_unparse_params : forall (obj : Type) (size : obj -> Z) (I
     sim (fun t o => twf spec atom t root /\ unparse spec atom t = Some o)
         (pspec_sample rule_of tab fuel root n P) (opspec_sample spec atom rule_of tab fuel root n P).
 Proof. intros. eapply pspec_sample_opsample; eassumption. Qed.
+
+(* ------------------------------------------------------------ hypotheses DECIDED on the compared case
+   For the cases built from a real parameter-free specification the harness sends, beside the C08 classes, the C07
+   descriptors of the SAME specification under the same labels (harness/props/c07.py _rule_desc on world_of_spec);
+   the extracted run_c08d (Count/ParseTreesSampleRun.v) answers the command (8 classes descs) with
+   [describes_ok, rank_ok, closed_ok], recomputed by the harness.  Verdicts 1 give the hypotheses `describes`, the rank
+   certificate and `closed` of C08_uniform_objects for spec = spec_of (map dec_rule descs), atom = atom_run descs,
+   rule_of = nth c classes no_cls - for every size function that gives the listed atoms the size written in their
+   descriptor (atom_sizes_ok).  node_ok (the strategies' bijection contracts) and the count recurrences stay hypotheses. *)
+Theorem C08_describes_decided : forall (size : Z -> Z) descs cds,
+  ParseTreesSampleDeciders.atom_sizes_ok size descs ->
+  ParseTreesSampleDeciders.describesb descs cds = true ->
+  describes size (ObjectsRun.spec_of (map ObjectsRun.dec_rule descs)) (ParseTreesRun.atom_run descs)
+            (ParseTreesSampleDeciders.cls_at cds).
+Proof. exact ParseTreesSampleDeciders.describesb_sound. Qed.
+
+Theorem C08_uniform_objects_decided : forall (size : Z -> Z) (In_cls : nat -> Z -> Prop)
+    (par : nat -> Z -> params) (fwd : nat -> Z -> subobj Z) descs cds (cnt : nat -> Z -> Z)
+    (obj_eqb : Z -> Z -> bool),
+  let spec := ObjectsRun.spec_of (map ObjectsRun.dec_rule descs) in
+  let atom := ParseTreesRun.atom_run descs in
+  let rule_of := ParseTreesSampleDeciders.cls_at cds in
+  ParseTreesSampleDeciders.describesb descs cds = true ->
+  Sx.sx_nth (ParseTreesRun.rank_verdict descs) 0 = Sx.I 1 ->
+  Sx.sx_nth (ParseTreesRun.rank_verdict descs) 1 = Sx.I 1 ->
+  ParseTreesSampleDeciders.atom_sizes_ok size descs ->
+  (forall c, node_ok size In_cls par spec atom fwd c) ->
+  (forall c o, In_cls c o -> 0 <= size o) ->
+  (forall a b, obj_eqb a b = true <-> a = b) ->
+  (forall c n, 0 <= cnt c n) ->
+  (forall c, c_kind (rule_of c) = K_ATOM -> cnt c (cmin rule_of c) = 1) ->
+  (forall c n, c_kind (rule_of c) = K_UNION ->
+     cnt c n = py_sum (map (fun ci => cnt ci n) (c_kids (rule_of c)))) ->
+  (forall c n, c_kind (rule_of c) = K_PRODUCT ->
+     cnt c n = py_sum (map (prod_counts cnt (c_kids (rule_of c)))
+                           (compositions n (zlen (c_kids (rule_of c)))
+                                         (map (cmin rule_of) (c_kids (rule_of c)))
+                                         (map (cmax rule_of) (c_kids (rule_of c)))))) ->
+  (forall c, 0 <= cmin rule_of c) ->
+  (forall c m, cnt c m <> 0 -> cmin rule_of c <= m /\ (c_atom (rule_of c) = true -> m <= cmin rule_of c)) ->
+  (forall c, c_kind (rule_of c) = K_PRODUCT ->
+     c_kids (rule_of c) <> [] /\ cmin rule_of c <= py_sum (map (cmin rule_of) (c_kids (rule_of c)))) ->
+  forall root o, spec root <> None -> In_cls root o ->
+  exists t, twf spec atom t root /\ unparse spec atom t = Some o /\
+    forall fuel, (height t < fuel)%nat ->
+      (prob (obj_eqb o) (ospec_sample spec atom rule_of cnt fuel root (size o))
+       == 1 / inject_Z (cnt root (size o)))%Q.
+Proof.
+  intros size In_cls par fwd descs cds cnt obj_eqb spec atom rule_of Hd Hr Hc Hs Hn.
+  destruct (ParseTreesRunSpec.rank_verdict_rank descs Hr) as (rank & Hrk & _).
+  apply (C08_uniform_objects Z size In_cls par spec atom fwd rule_of cnt rank obj_eqb
+           (C08_describes_decided size descs cds Hs Hd) Hn
+           (ParseTreesRunSpec.rank_verdict_closed descs Hc) Hrk).
+Qed.
 
 (* C08_uniform_params ON OBJECTS: every object o of the root class, asked for with its size and its parameters
    (P = the **parameters dictionary holding the tuple par root o), is returned with probability exactly
@@ -1839,6 +1894,8 @@ Print Assumptions C08_sim_prob.
 Print Assumptions C08_wf_trees_coincide.
 Print Assumptions C08_sampler_is_unparse.
 Print Assumptions C08_uniform_objects.
+Print Assumptions C08_describes_decided.
+Print Assumptions C08_uniform_objects_decided.
 Print Assumptions C08_objects_support.
 Print Assumptions C08_wf_trees_coincide_params.
 Print Assumptions C08_sampler_is_unparse_params.
